@@ -30,7 +30,7 @@ def candidate_pins(spec, cand, pin_selections=True, pin_dynamic=True):
         for key, chosen in cand.get("chosen", {}).items():
             tn, res = key.split("|", 1)
             if res in sel_ids and cand["tasks"][tn]["scheduled"]:
-                for w in sel_ids[res]["workers"]:
+                for w in dict.fromkeys(sel_ids[res]["workers"]):
                     e = ["sel", res, w]
                     pins.append({"pin": "expr", "expr": e if w in chosen else ["not", e]})
     if pin_dynamic:
